@@ -352,6 +352,8 @@ class Engine:
         self.npaths = 0
         self._serial = itertools.count(1)
         self.fninfo = {}
+        self.index_hook = None   # f(engine, state, base_value, index_value) -> value | None
+        self.call_hook = None    # f(engine, state, frame, path, resolved, args, term) -> list | NotImplemented
 
     # -------------------------------------------------------------- lookup
     def find_body(self, path):
@@ -380,6 +382,8 @@ class Engine:
                 x = adt_get(val, name)
                 if x is not None:
                     return x
+                if val[1] == "?open":
+                    return ("field", adt_get(val, "__base"), name)
                 return ("field", val, name)
             if val[0] == "tuple":
                 i = int(name)
@@ -474,10 +478,9 @@ class Engine:
                     items.append(("sym", "uninit"))
                 items[i] = self.write_value(items[i], proj[1:], new, st)
                 return ("tuple", tuple(items))
-            # symbolic base: turn into open adt
-            base = ("adt", "?", "", ())
+            # symbolic base: turn into an open adt remembering its base
             cur = ("field", old, name)
-            return adt_set(("adt", "?open", show(old), ()), name, self.write_value(cur, proj[1:], new, st))
+            return adt_set(("adt", "?open", "", (("__base", old),)), name, self.write_value(cur, proj[1:], new, st))
         if k == "downcast":
             return self.write_value(old, proj[1:], new, st)
         if k == "deref":
@@ -1028,6 +1031,10 @@ class Engine:
             if clo_v[0] == "fn":
                 spread = list(args[1][1]) if args[1][0] == "tuple" else ([] if args[1] == UNIT else [args[1]])
                 return self.dispatch(st, frame, clo_v[1], clo_v[2], self.fninfo.get(clo_v), spread, loc, t)
+        if self.call_hook is not None:
+            r = self.call_hook(self, st, frame, path, target, args, t)
+            if r is not NotImplemented:
+                return r
         # 2. intrinsics
         for key in (target, path):
             h = self.intrinsics.get(key)
@@ -1050,7 +1057,7 @@ class Engine:
             if not self.recursing(frame, b):
                 return self.inline_call(st, frame, b, args)
         # 4. uninterpreted
-        return [(st, self.record_call(st, path, target, args, loc, t))]
+        return [(st, self.record_call(st, path, target, args, loc, t, frame))]
 
     def recursing(self, frame, b):
         f = frame
@@ -1084,7 +1091,7 @@ class Engine:
                 res.append((p.state, ("app", "loopcut:" + body.path, ())))
         return res
 
-    def record_call(self, st, path, target, args, loc, t):
+    def record_call(self, st, path, target, args, loc, t, frame=None):
         n = next(self._serial)
         # arguments as seen at call time (references resolved one level for readability)
         seen = tuple(self.snapshot(st, a) for a in args)
@@ -1092,16 +1099,23 @@ class Engine:
         st.effects.append(Effect(kind="call", callee=path, resolved=target, args=seen, raw_args=tuple(args),
                                  loc=loc, ncond=len(st.cond), serial=n, result=res,
                                  exp=t.get("exp") if t else None))
-        # havoc referents of &mut arguments
-        if t is not None:
-            for a in args:
-                if a[0] == "ref" and self.is_mut_ref_arg(t, args.index(a)):
+        # std collection mutators called through `&mut`: the referent gets a new version
+        if t is not None and frame is not None and target.startswith(STD_PREFIXES):
+            for i, a in enumerate(args):
+                if a[0] == "ref" and i < len(t["args"]) and self.is_mut_ref_operand(frame, t["args"][i]):
                     old = self.read_path(st, st.cells[a[1]], a[2])
-                    self.write_cell(st, a[1], list(a[2]), ("app", "mut:" + target, (old,) + seen))
+                    others = tuple(x for j, x in enumerate(seen) if j != i)
+                    self.write_cell(st, a[1], list(a[2]), ("app", "upd:" + target, (old,) + others))
         return res
 
-    def is_mut_ref_arg(self, t, idx):
-        return False  # conservative default: no havoc (callee effects are visible as effects)
+    def is_mut_ref_operand(self, frame, o):
+        if o["k"] not in ("move", "copy"):
+            return False
+        pl = o["pl"]
+        if pl["p"]:
+            return False
+        ty = frame["body"].locals[pl["l"]]["ty"]
+        return ty.get("k") == "ref" and ty.get("mut")
 
     def snapshot(self, st, v, depth=0):
         """replace concrete references by their current referent value (&v)"""
@@ -1120,6 +1134,7 @@ class Engine:
 
 
 DIVERGE = object()
+STD_PREFIXES = ("std::", "core::", "alloc::", "hashbrown::", "<std::", "<core::", "<alloc::", "<hashbrown::")
 
 
 def frame_fork(frame):
@@ -1264,6 +1279,17 @@ def _i_from_into(eng, st, frame, args, finfo, t):
     return NotImplemented
 
 
+def _i_index(eng, st, frame, args, finfo, t):
+    """Index::index(&container, idx) -> reference to the element (hookable)"""
+    base = deref_val(eng, st, args[0])
+    idx = args[1]
+    if eng.index_hook is not None:
+        v = eng.index_hook(eng, st, base, idx)
+        if v is not None:
+            return [(st, ("ref", st.new_cell(v), ()))]
+    return [(st, ("app", "&", (("index", base, idx),)))]
+
+
 def _i_option_unwrap(eng, st, frame, args, finfo, t):
     a = args[0]
     if a[0] == "adt" and a[2] in ("Some", "Ok"):
@@ -1296,6 +1322,8 @@ DEFAULT_INTRINSICS = {
     "std::result::Result::<T, E>::expect": _i_option_unwrap,
     "std::result::Result::<T, E>::unwrap": _i_option_unwrap,
     "std::boxed::Box::<T>::new": _i_box_new,
+    "std::ops::Index::index": _i_index,
+    "std::ops::IndexMut::index_mut": _i_index,
 }
 
 
